@@ -189,6 +189,15 @@ theorem C03_stopped_retry_schedules_nothing (s : State) (f : Nat) (o : Outcome) 
     · cases o <;> simp <;> omega
     · rfl
 
+/-- **The batcher is shut down whatever the queue's shutdown did.**  `QueueBatch.Shutdown` = `errors.Join(queue.Shutdown, batcher.Shutdown)`:
+once the consumers are joined (`phase = 3`) — whatever the queue's own `Shutdown` returned: failed size snapshot, failed storage
+`Close` — the batcher's shutdown step is enabled; it takes the partial batch for the final flush, and there is no other way to
+"returned" (`phase` only grows by one).  Errors are collected, never branched on: the model has no error outcome. -/
+theorem C03_batcher_shutdown_unconditional {s : State} (h : Reachable s) (hp : s.phase = 3) :
+    ∃ s', fire s .shutBatcher = some s' ∧ s'.phase = 4 ∧ s'.shutHand = s.cur ∧ s'.cur = none := by
+  have hh := (inv_reachable h).wf.hand3 (by omega)
+  exact ⟨{ s with phase := 4, shutHand := s.cur, cur := none }, by simp [fire, hp, hh], rfl, rfl, rfl⟩
+
 /-! ## non-vacuity: concrete schedules -/
 
 /-- memory queue, default batcher, retry on: two requests, the second is split, one batch stays as the partial current batch;
